@@ -12,6 +12,11 @@ def run(tier):
     chk.add_tlc('MC_Tensor(identities of the index-notation specification)', mc)
     if not mc.ok:
         raise C.ToolError('MC_Tensor failed\n' + mc.out[-2000:])
+    nob = C.run_tlaps('Tensor_proofs', deps=('Tensor',))
+    chk.layer('S.proofs', tlaps_obligations_proved=nob,
+              note='Tensor_proofs.tla: cross product antisymmetric and orthogonal to both factors, Lagrange identity, cyclic triple product, dot symmetric, '
+                   'planar embedding, transpose involutive, trace of a dyadic product, symmetric embedding round trip, det(A^T) = det(A) — for ALL integer '
+                   'components (tlapm; polynomial identities as scalar lemmas by SMT, lifted to the operators of Tensor.tla)')
     exe = C.compile_cxx('shapes', [os.path.join(C.HARNESS, 'shapes.cpp')], flags=['-std=c++17', '-O1', '-fno-fast-math', '-ffp-contract=off', '-w'], libs=['-lquadmath'])
     wd = C.work_dir('c09')
     tp = os.path.join(wd, 'tensor.ndjson')
